@@ -22,10 +22,18 @@ R4 read_only travels unchanged: wherever a function with a `read_only` parameter
    accepts `read_only`, it passes its own `read_only` or the constant False (a full copy is always correct;
    `True`/negation/another value is not); the `ln -s`/`cp -r` idiom and `_local_copy` choose the link exactly
    when `read_only` is true, with operands in (src, dst) order, and copy files with a mode-preserving call.
+R5 copies materialise symbolic links (dereference policy).  Only the read-only `ln -s`/`os.symlink` may leave a
+   link at the destination; every *copy* primitive of the transfer code (enumerated over streamflow.deployment,
+   streamflow.data and core.utils) must follow links, otherwise a link inside the tree (or the source path itself,
+   which is a link after a read-only transfer) is re-created verbatim: it dangles at the new depth / on the other
+   host, or aliases the source of a writable copy.  Decided on the effective argument (explicit value, else the
+   library default): `shutil.copytree(symlinks=)` is False, `shutil.copy/copy2/copyfile(follow_symlinks=)` is
+   True, a tar *create* command (`tar c..`) carries `h`/`--dereference`, `aiotarstream.open(mode='w')` passes
+   `dereference=True` (the class default is False).  `/bin/cp -rf` of copy_same_connector does NOT dereference
+   (GNU/busybox `-r` implies `-P`): reported as an observation, not armed (see report).
 
-Left out: equality of contents/structure/executable bits at the destination (needs execution); the tar flags
-`p`/`h` (not necessary: the x bit survives any usual umask; `h` is a dereference policy, not a correctness
-condition); connector-specific copy paths of docker/ssh/kubernetes/queue managers (outside the property's
+Left out: equality of contents/structure/executable bits at the destination (needs execution); the tar flag
+`p` (not necessary: the x bit survives any usual umask); connector-specific copy paths of docker/ssh/kubernetes/queue managers (outside the property's
 anchors) except for the read_only forwarding of R4, which is enumerated program-wide.
 """
 
@@ -57,7 +65,8 @@ META = {
         "writer command returned by get_remote_to_remote_write_command); feature comparison of the three branches of "
         "data.manager._copy; must-pass-through of available.set() for every DataLocation published unavailable, gather before "
         "set, wait before reading a registered source; program-wide forwarding table of read_only and polarity of the "
-        "link/copy idioms. Necessary structural conditions only."
+        "link/copy idioms; effective dereference argument/flag of every copy primitive (shutil, tar create commands, "
+        "aiotarstream writers). Necessary structural conditions only."
     ),
     "undecided": "byte equality of regular-file contents, directory structure and executable bits at the destination (needs execution)",
     "assumptions": [
@@ -446,6 +455,15 @@ def r3b(ctx):
 # --------------------------------------------------------------------------- R4
 
 
+def _operand_root(f, e: ast.AST, depth: int = 4) -> str:
+    """Text of the value a command operand carries: temporaries and single-argument wrappers
+    (`shlex.quote(x)`, `str(x)`) are looked through."""
+    d = deref(f, e)
+    if depth > 0 and isinstance(d, ast.Call) and len(d.args) == 1 and not d.keywords:
+        return _operand_root(f, d.args[0], depth - 1)
+    return ktext(f, d) if isinstance(d, (ast.Name, ast.Attribute)) else ktext(f, e)
+
+
 def r4(ctx):
     prog = ctx.prog
     n = 0
@@ -507,7 +525,7 @@ def r4(ctx):
             par = getattr(node, "_parent", None)
             ops_ok = False
             if isinstance(par, ast.BinOp) and isinstance(par.op, ast.Add) and par.left is node and isinstance(par.right, ast.List):
-                names = [ktext(f, e.args[0]) if isinstance(e, ast.Call) and e.args else ktext(f, e) for e in par.right.elts]
+                names = [_operand_root(f, e) for e in par.right.elts]
                 ops_ok = len(names) == 2 and "src" in names[0] and "dst" in names[1]
             ctx.ob("R4", f"{f.name}: symbolic link exactly when read_only, recursive copy otherwise, operands (src, dst)", ok and ops_ok, func=f, node=node,
                    instance=f"{f.name}:ln-cp", message=f"{f.name}: `{unparse(par if par is not None else node)[:100]}` links a writable transfer / copies non-recursively / swaps source and destination")
@@ -544,8 +562,165 @@ def r4(ctx):
            message=f"_local_copy lost one of os.symlink / shutil.copy / shutil.copytree: {seen}")
 
 
-RULES = [("R1", r1), ("R2", r2), ("R3", lambda ctx: (r3(ctx), r3b(ctx))), ("R4", r4)]
-FLOORS = {"R1": 10, "R2": 10, "R3": 5, "R4": 14}
+# --------------------------------------------------------------------------- R5
+
+# library copy primitives: qualified name -> (keyword deciding the link policy, its position, library default,
+#                                             value under which links are followed)
+PY_COPIES = {
+    "shutil.copytree": ("symlinks", 2, False, False),
+    "shutil.copy": ("follow_symlinks", 2, True, True),
+    "shutil.copy2": ("follow_symlinks", 2, True, True),
+    "shutil.copyfile": ("follow_symlinks", 2, True, True),
+}
+TARSTREAM = "streamflow.deployment.aiotarstream"
+TARSTREAM_OPEN = (f"{TARSTREAM}.open", f"{TARSTREAM}.AioTarStream.open")
+
+
+def _r5_scope(prog):
+    return [m for m in prog.modules.values() if m.name == UTILS or m.name.split(".")[:2] in (["streamflow", "deployment"], ["streamflow", "data"])]
+
+
+def _bool_value(f, e: ast.AST, nids) -> bool | None:
+    """Value of a flag argument: a constant (through temporaries), `not <flag>`, or a name/parameter whose truth
+    is fixed by the tests guarding the call; None = not decidable."""
+    d = deref(f, e)
+    if isinstance(d, ast.Constant) and isinstance(d.value, bool):
+        return d.value
+    if isinstance(d, ast.UnaryOp) and isinstance(d.op, ast.Not):
+        v = _bool_value(f, d.operand, nids)
+        return None if v is None else not v
+    if isinstance(d, ast.Name) and nids:
+        vals = set()
+        for nid in nids:
+            here = {truth for x, truth, _t in guard_atoms(f.cfg, nid) if isinstance(x, ast.Name) and x.id == d.id}
+            vals.add(next(iter(here)) if len(here) == 1 else None)
+        if len(vals) == 1:
+            return next(iter(vals))
+    return None
+
+
+def _effective(c: ast.Call, kw: str, pos: int):
+    """-> (expression | None, hidden?) of the argument `kw` (position `pos`) at call c."""
+    for k in c.keywords:
+        if k.arg == kw:
+            return k.value, False
+    if any(isinstance(a, ast.Starred) for a in c.args[: pos + 1]) or any(k.arg is None for k in c.keywords):
+        return None, True
+    if len(c.args) > pos:
+        return c.args[pos], False
+    return None, False
+
+
+def _tar_words(e: ast.AST):
+    """Constant shell words of a command expression that starts with the word `tar` (list of words / f-string /
+    string), else None.  Run-time operands are skipped: only the literal option words matter here."""
+    parts = []
+    if isinstance(e, (ast.List, ast.Tuple)):
+        for x in e.elts:
+            if isinstance(x, ast.Constant) and isinstance(x.value, str):
+                parts.append(x.value)
+            elif isinstance(x, ast.JoinedStr):
+                parts += [v.value for v in x.values if isinstance(v, ast.Constant) and isinstance(v.value, str)]
+            elif not parts:
+                return None
+    elif isinstance(e, ast.JoinedStr):
+        if not (e.values and isinstance(e.values[0], ast.Constant)):
+            return None
+        parts = [v.value for v in e.values if isinstance(v, ast.Constant) and isinstance(v.value, str)]
+    else:
+        return None
+    words = " ".join(parts).split()
+    if not words or words[0].rsplit("/", 1)[-1] != "tar":
+        return None
+    return words[1:]
+
+
+def _tar_policy(words):
+    """-> (creates an archive?, follows links?) from the option words of a tar command."""
+    bundles = [w.lstrip("-") for i, w in enumerate(words) if (i == 0 and not w.startswith("--") and w != "-") or (w.startswith("-") and not w.startswith("--") and len(w) > 1)]
+    create = any("c" in b for b in bundles) or "--create" in words
+    follow = any("h" in b for b in bundles) or "--dereference" in words
+    return create, follow
+
+
+def r5(ctx):
+    prog = ctx.prog
+    n_py = n_tar = n_open = 0
+    # the anchors must still be there (a moved helper is an analysis error, not a silent pass)
+    lc = prog.func(f"{LOCAL}._local_copy")
+    ctx.require(any(q in PY_COPIES for c in lc.calls() for q in prog.resolve_call(lc, c)), "C22.R5: _local_copy no longer uses a shutil copy primitive")
+    scope = {id(m): m for m in _r5_scope(prog) if "shutil" in m.source or "copytree" in m.source or "tar" in m.source}
+    for f in prog.all_funcs():
+        m = scope.get(id(f.module))
+        if m is None:
+            continue
+        has_py = "shutil" in m.source or "copytree" in m.source
+        has_tar = "tar" in m.source
+        if True:
+            short = f.qualname.split(".", 3)[-1]
+            for c in f.calls() if has_py or "aiotarstream" in m.source else []:
+                qs = prog.resolve_call(f, c, fanout=False)
+                q = next((q for q in qs if q in PY_COPIES), None)
+                if q is not None:
+                    kw, pos, default, want = PY_COPIES[q]
+                    n_py += 1
+                    val, hidden = _effective(c, kw, pos)
+                    got = default if (val is None and not hidden) else None if val is None else _bool_value(f, val, ids_at(f, c))
+                    ctx.ob("R5", f"{short}: {q}(...) follows symbolic links ({kw}={unparse(val) if val is not None else ('<hidden>' if hidden else f'<default {default}>')})",
+                           got is want, func=f, node=c, instance=f"{q}:{kw}",
+                           message=f"{short}: `{' '.join(unparse(c).split())[:100]}` runs with {kw}={unparse(val) if val is not None else '<not visible>'}"
+                                   f"{'' if got is not None else ' (cannot be shown to be ' + str(want) + ')'}: symbolic links of the source tree are re-created at the destination instead of the "
+                                   "files/directories they resolve to -- relative links dangle at the new depth, absolute ones alias the source of a writable copy")
+                elif any(t in qs for t in TARSTREAM_OPEN):
+                    mode, _h = _effective(c, "mode", 1)
+                    md = deref(f, mode) if mode is not None else None
+                    if not (isinstance(md, ast.Constant) and isinstance(md.value, str) and md.value[:1] in ("w", "x", "a")):
+                        continue  # reader
+                    n_open += 1
+                    val, hidden = _effective(c, "dereference", 1 << 10)
+                    got = None if val is None else _bool_value(f, val, ids_at(f, c))
+                    ctx.ob("R5", f"{short}: aiotarstream.open(mode={md.value!r}) archives what links resolve to (dereference=True)", got is True, func=f, node=c,
+                           instance=f"aiotarstream.open:{md.value}:dereference",
+                           message=f"{short}: the tar writer is opened with dereference={unparse(val) if val is not None else '<default False>'}: symbolic links below (or at) the local source are "
+                                   "archived as links and re-created on the remote location, where they dangle")
+            if not has_tar:
+                continue
+            for e in f.body_nodes():
+                if not isinstance(e, (ast.List, ast.Tuple, ast.JoinedStr)):
+                    continue
+                if isinstance(getattr(e, "_parent", None), (ast.List, ast.Tuple)) and _tar_words(e._parent) is not None:
+                    continue  # an f-string word of a command list already handled
+                words = _tar_words(e)
+                if words is None:
+                    continue
+                create, follow = _tar_policy(words)
+                if not create:
+                    continue
+                n_tar += 1
+                ctx.ob("R5", f"{short}: tar create command `tar {' '.join(words)[:40]}` dereferences links (`h`)", follow, func=f, node=e,
+                       instance=f"tar-create:{short}",
+                       message=f"{short}: the archive is produced by `tar {' '.join(words)[:60]}` without `h`/`--dereference`: symbolic links below (or at) the source are shipped as links and "
+                               "dangle on the destination location (a source that is itself a link, e.g. after a read-only transfer, arrives as a dangling link)")
+    ctx.require(n_py >= 2, f"C22.R5: only {n_py} shutil copy calls found in the transfer code (_local_copy: copytree + copy expected)")
+    ctx.require(n_tar >= 2, f"C22.R5: only {n_tar} tar create commands found (copy_remote_to_remote, BaseConnector.copy_remote_to_local expected)")
+    ctx.require(n_open >= 1, f"C22.R5: no aiotarstream.open(mode='w') found (copy_local_to_remote expected)")
+    # `cp -r` keeps links (GNU / busybox: -R implies -P) -- today's copy_same_connector: observation only
+    for m in _r5_scope(prog):
+        if "cp" not in m.source:
+            continue
+        for node in ast.walk(m.tree):
+            if isinstance(node, ast.List) and node.elts and isinstance(node.elts[0], ast.Constant) and isinstance(node.elts[0].value, str) and node.elts[0].value.rsplit("/", 1)[-1] == "cp":
+                opts = [x.value for x in node.elts[1:] if isinstance(x, ast.Constant) and isinstance(x.value, str) and x.value.startswith("-")]
+                rec = any((not o.startswith("--") and ("r" in o or "R" in o or "a" in o)) or o in ("--recursive", "--archive") for o in opts)
+                der = any((not o.startswith("--") and "L" in o) or o == "--dereference" for o in opts)
+                if rec and not der:
+                    f = prog.enclosing_func(node)
+                    ctx.observe(f"C22.R5 {f.name if f else m.name}: `{unparse(node)}` copies recursively without `-L`: symbolic links (also a source path that is itself a link) are "
+                                "re-created, not materialised, by a writable same-location copy (not armed: present on the pinned tree; reported)")
+
+
+RULES = [("R1", r1), ("R2", r2), ("R3", lambda ctx: (r3(ctx), r3b(ctx))), ("R4", r4), ("R5", r5)]
+FLOORS = {"R1": 10, "R2": 10, "R3": 5, "R4": 14, "R5": 6}
 
 BC = f"{BASE}.BaseConnector"
 VARIANTS = [
